@@ -24,7 +24,9 @@ NAME_POOL = ['C', 'Y', 'H_h', 'x1', 'X_if', 'is_open', 'Pin', 'not_X', 'origin',
              # Python *soft* keywords are ordinary identifiers, hence ordinary variable names
              'type', 'match', 'case',
              # names that read like special values or missing-cell markers
-             'nan', 'inf', 'NA']
+             'nan', 'inf', 'NA',
+             # a keyword with a digit stuck to it is an ordinary name
+             'in1', 'or2', 'if0', 'is1', 'as3', 'not9']
 UNDERSCORE_POOL = ['_u', '_X', '__v']
 
 
